@@ -33,8 +33,11 @@ def short(name):
 
 class Facts:
     def __init__(self, path):
+        import vocab
         with open(path) as f:
-            self.raw = json.load(f)
+            text = f.read()
+        # rewrite behaviour-preserving renames / moves of anchored items into the rules' frozen vocabulary (see vocab.py)
+        self.raw, self.vocab_notes = vocab.normalise(text)
         self.config = self.raw.get("config")
         self.nonce = self.raw.get("nonce")
         self.adts = self.raw["adts"]
